@@ -88,7 +88,9 @@ func (vt *Model) ri() {
 		vt.scrollDown(1)
 		return
 	}
-	vt.cursor.row -= 1
+	if vt.cursor.row > 0 {
+		vt.cursor.row -= 1
+	}
 }
 
 // Save Cursor DECSC ESC-7
